@@ -132,6 +132,14 @@ Theorem C12_compiled_pattern_meaning : forall env idx x o p,
 Proof. exact compiled_pattern_meaning. Qed.
 Print Assumptions C12_compiled_pattern_meaning.
 
+(* the rule vocabulary of schema.proto against the declaration language (see C04_schema_vocabulary_covered):
+   in particular every field of every Rules message has a place in the models — IntegerField.Rules.multiple_of
+   is RulesCompile.x_mult; the five fields of FloatField.Rules are Outside (float rules are a compile error) *)
+Theorem C12_schema_vocabulary_covered :
+  map (fun e => (fst e, map fst (snd e))) vocabulary = RulesGen.schema_vocabulary.
+Proof. exact schema_vocabulary_covered. Qed.
+Print Assumptions C12_schema_vocabulary_covered.
+
 (* ---- required presence, per field kind, as the validator sees it (the protobuf-level
    reading; the JSON-level distinction "absent vs explicit default" does not exist in a
    compiled message) -------------------------------------------------------------------
